@@ -517,7 +517,12 @@ class SchedOracle(object):
                             exp = rpc.BUSY
                         else:
                             exp = rpc.FREE
-                        if v != exp:
+                        # (how a held resource is marked is the scheduler's
+                        #  business - BUSY or a share - as long as it is not
+                        #  offered as free)
+                        ok = (v == exp) or (exp == rpc.BUSY and
+                                            v not in (rpc.FREE, rpc.DOWN))
+                        if not ok:
                             what = 'held-but-free' if exp == rpc.BUSY else \
                                    'free-but-busy' if exp == rpc.FREE else \
                                    'down-changed'
